@@ -62,13 +62,19 @@ def trigPos : Val → Option Bool
   | .a .none => some false
   | v => gtZero v
 
-/-- Python `int(x)` for a number (truncation); `int(None)` and `int(tuple)` raise TypeError. -/
+/-- `round(x, 8)` on an exact rational.  (Half-up here, half-even in Python: the two differ only on exact ties at the
+    ninth decimal, and no such tie lies within rounding distance of a whole number — `N − 0.5·10⁻⁸` is not a dyadic
+    rational — so `int(round(x, 8))` below is the same either way.) -/
+def round8 (q : Rat) : Rat := ((q * 100000000 + 1 / 2).floor : Rat) / 100000000
+
+/-- Python `int(round(x, 8))` for a number — the step count of `PInterpolate` since fix af593e3: a computed count such
+    as `0.3 / 0.1 = 2.9999999999999996` is three steps, `2.5` is two; `None` and tuples raise TypeError. -/
 def pyInt : Val → Out
   | .a .none => .err .typeError
   | .a (.str _) => .err .unmodelled
   | .a x =>
     match x.toNum with
-    | some n => .val (.a (.int (truncRat n.r)))
+    | some n => .val (.a (.int (truncRat (round8 n.r))))
     | Option.none => .err .typeError
   | .tup _ => .err .typeError
 
@@ -244,7 +250,7 @@ def resetPermut (st : St) : St := { st with n1 := MAXSIZE, n2 := MAXSIZE, n3 := 
 
 /-! ### PInterpolate -/
 
-/-- `vsteps = int(value(steps)); while vsteps == 0: self.value = next(pattern); vsteps = int(value(steps))`.
+/-- `vsteps = int(round(value(steps), 8)); while vsteps == 0: self.value = next(pattern); vsteps = int(round(value(steps), 8))`.
     Returns the outcome (`val (int vsteps)`, `vsteps ≠ 0`, or what ended the loop), the kids and `self.value`. -/
 def interpSkip (rec : Rec) : Nat → List Pat → Val → Out × List Pat × Val
   | 0, kids, cur => (.err .diverge, kids, cur)
